@@ -2151,3 +2151,13 @@ M("c03-scope-defaults-replace-single-bucket", "C03", "scope.go",
   "	if opts.DefaultBuckets == nil || opts.DefaultBuckets.Len() < 1 {", "	if opts.DefaultBuckets == nil || opts.DefaultBuckets.Len() <= 1 {", expect="")
 M("c03-scope-defaults-dropped", "C03", "scope.go",
   "		opts.DefaultBuckets = defaultScopeBuckets\n", "", expect="")
+M("c15-multi-close-stops-after-first-success", "C15", "m3/thriftudp/multitransport.go",
+  "		if err := trans.Close(); err != nil {", "		if err := trans.Close(); err == nil {", expect="O5 fan-out")
+M("c15-multi-flush-stops-after-first-success", "C15", "m3/thriftudp/multitransport.go",
+  "		if err := trans.Flush(); err != nil {", "		if err := trans.Flush(); !(err != nil) {", expect="O5 fan-out")
+M("c03-bucketpairs-single-bound-ignored", "C03", "histogram.go",
+  "	if buckets == nil || buckets.Len() < 1 {\n		return []BucketPair{_singleBucket}", "	if buckets == nil || buckets.Len() <= 1 {\n		return []BucketPair{_singleBucket}", expect="pairs-default")
+M("c03-bucketpairs-empty-spec-panics", "C03", "histogram.go",
+  "	if buckets == nil || buckets.Len() < 1 {\n		return []BucketPair{_singleBucket}", "	if buckets == nil {\n		return []BucketPair{_singleBucket}", expect="pairs-default")
+M("c06-buffer-reset-after-put", "C06", "sanitize.go",
+  "	b.Reset()\n	_sanitizeBuffers.Put(b)", "	_sanitizeBuffers.Put(b)\n	b.Reset()", expect="O4 pooled-buffer")
